@@ -25,14 +25,21 @@ let by_key l = List.sort (fun (a, _) (b, _) -> compare (int_of_n a) (int_of_n b)
 let rec dedup_keys seen = function
   | [] -> []
   | (k, v) :: r -> if List.mem (int_of_n k) seen then dedup_keys seen r else (k, v) :: dedup_keys (int_of_n k :: seen) r
+(* full protocol key (MAC / S-VLAN / C-VLAN) of session i: neighbours differ in exactly one component; same table as the harness *)
+let ident_tbl = [| ("020000000010", 100, 10); ("020000000010", 100, 11); ("020000000010", 200, 10); ("020000000110", 100, 10);
+                   ("02aa00000010", 100, 10); ("060000000010", 100, 10); ("020000000011", 100, 10); ("0200bbcc0010", 100, 0) |]
+let ident_s i =
+  let (m, sv, cv) = ident_tbl.(i mod 8) in
+  let (sv, cv) = if i >= 8 then (200, cv + 100 * (i / 8)) else (sv, cv) in
+  Printf.sprintf "%s/%d/%d" m sv cv
 let sess_s proto (r : sess) =
   let fl = match proto with
     | IPoE -> (if r.s_bound then "b" else "") ^ (if r.s_rel4 then "r" else "") ^ (if r.s_appr then "a" else "") ^ (if r.s_crea then "c" else "")
               ^ (if r.s_v6b then "6" else "")
     | PPPoE -> (if r.s_bound then "b" else "") ^ (if int_of_n r.s_swif <> 0 then "c" else "") in
   let fl = if fl = "" then "." else fl in
-  Printf.sprintf "%s:%s:%s:%s:%s:%s:%s:ok" (si r.s_id) (opt_s r.s_stamp) (si r.s_swif) fl
-    (opt_s r.s_v4) (opt_s r.s_v6) (opt_s r.s_pd)
+  Printf.sprintf "%s:%s:%s:%s:%s:%s:%s:%s" (si r.s_id) (opt_s r.s_stamp) (si r.s_swif) fl
+    (opt_s r.s_v4) (opt_s r.s_v6) (opt_s r.s_pd) (ident_s (int_of_n r.s_id))
 let sessions_s proto l = join_or_dash (List.map (fun (_, r) -> sess_s proto r) (by_key (dedup_keys [] l)))
 let dp_s l = join_or_dash (List.map (fun (k, e) ->
     Printf.sprintf "%s:%s:%s:%s:%s" (si k) (si e.d_swif) (opt_s e.d_v4) (opt_s e.d_v6) (opt_s e.d_pd)) (by_key (dedup_keys [] l)))
@@ -151,7 +158,7 @@ let () =
                                   (sessions_s proto s'.store) in
                outs := txt :: !outs)) ops;
         let st = !s in
-        let fin = Printf.sprintf "final live=%s store=%s dp=%s free4=%s free6=%s freepd=%s" (sessions_s proto st.live)
+        let fin = Printf.sprintf "final live=%s store=%s dp=%s free4=%s free6=%s freepd=%s freeb=4" (sessions_s proto st.live)
             (sessions_s proto st.store) (dp_s st.dp) (free_s c st 0) (free_s c st 1) (free_s c st 2) in
         print_endline (String.concat " | " (List.rev (fin :: !outs)))
       with e -> print_endline ("modelerror " ^ Printexc.to_string e))
